@@ -404,6 +404,11 @@ impl Ctx {
                 for g in &ob.goals {
                     goals.extend(g.to_atoms());
                 }
+                if !ob.goals.is_empty() && goals.is_empty() {
+                    // every goal was a concrete fact that evaluated to true: keep the goal
+                    // non-empty (an empty goal list means "goal = false")
+                    goals.push(Atom::Eq(Op::C(0), Op::C(0)));
+                }
                 let mut assumptions = ob.assumptions.clone();
                 if !assumed.is_empty() {
                     assumptions.push(format!(
